@@ -42,6 +42,9 @@ type UpScript struct {
 	// TLS: the upstream speaks TLS (the proxy dials it with its `tls` option);
 	// half-close is a close_notify alert
 	TLS bool
+	// TLSMaxVersion: 0 = default; tls.VersionTLS12 makes the final data record and the
+	// close_notify alert arrive in one read at the peer (Read returns n > 0 together with EOF)
+	TLSMaxVersion uint16
 }
 
 // UpByte is byte i of the stream sent by an upstream with the given tag/key.
@@ -125,7 +128,7 @@ func (p *ProxyUps) serve(addr string, c net.Conn, end *simnet.End, idx int) {
 		return
 	}
 	if sc.TLS {
-		tc := tls.Server(c, &tls.Config{Certificates: []tls.Certificate{ServerCert()}, GetConfigForClient: func(hi *tls.ClientHelloInfo) (*tls.Config, error) {
+		tc := tls.Server(c, &tls.Config{Certificates: []tls.Certificate{ServerCert()}, MaxVersion: sc.TLSMaxVersion, GetConfigForClient: func(hi *tls.ClientHelloInfo) (*tls.Config, error) {
 			lk()
 			rec.SNI = hi.ServerName
 			if rec.SNI == "" {
